@@ -81,6 +81,9 @@ func (c07) Gen(rng *rand.Rand, tier string, emit func(string)) {
 		"hist new:a:6163677461:- rc:a:b rci:b",
 		"hist new:a:6163677461:0102030405 copy:a:b set:b:1:110 recycle:b sub:a:c:1:4:0 set:c:0:110",
 		"hist new:a:6163677461:- rc:a:b copy:b:c rc:c:d set:d:2:110",
+		"hist new:a:6163677461:- mapset:a:merged_sample:s1:3 copy:a:b mapset:b:merged_sample:s1:100",
+		"hist new:a:6163677461:- mapset:a:merged_sample:s1:3 sub:a:b:1:4:0 mapset:a:merged_sample:s2:7 rc:b:c mapset:c:merged_sample:s1:9",
+		"hist new:a:6163677461:0102030405 mapset:a:m2:s3:1 rc:a:b mapset:b:m2:s3:2 recycle:a",
 	} {
 		emit(h)
 	}
@@ -134,7 +137,9 @@ func (c07) Gen(rng *rand.Rand, tier string, emit func(string)) {
 			for k := 0; k < 3+rng.Intn(8); k++ {
 				src := names[rng.Intn(len(names))]
 				dst := string(rune('a' + len(names)))
-				switch rng.Intn(7) {
+				switch rng.Intn(8) {
+				case 7:
+					ops = append(ops, fmt.Sprintf("mapset:%s:merged_sample:%s:%d", src, []string{"s1", "s2"}[rng.Intn(2)], rng.Intn(50)))
 				case 0:
 					ops = append(ops, fmt.Sprintf("copy:%s:%s", src, dst))
 					names = append(names, dst)
@@ -152,6 +157,8 @@ func (c07) Gen(rng *rand.Rand, tier string, emit func(string)) {
 				case 6:
 					if rng.Intn(3) == 0 {
 						ops = append(ops, "recycle:"+src)
+					} else {
+						ops = append(ops, fmt.Sprintf("mapset:%s:%s:%s:%d", src, []string{"merged_sample", "m2"}[rng.Intn(2)], []string{"s1", "s2", "s3"}[rng.Intn(3)], rng.Intn(100)))
 					}
 				}
 				if len(names) > 6 {
@@ -171,9 +178,38 @@ func c07Dump(objs map[string]*obiseq.BioSequence, names []string) map[string]str
 		if o.HasQualities() {
 			q = hx(o.Qualities())
 		}
-		d[n] = hx(o.Sequence()) + "/" + q
+		d[n] = hx(o.Sequence()) + "/" + q + "/" + c07Ann(o)
 	}
 	return d
+}
+
+// c07Ann prints the map[string]int valued annotations, keys sorted.
+func c07Ann(o *obiseq.BioSequence) string {
+	if !o.HasAnnotation() {
+		return ""
+	}
+	var keys []string
+	for k, v := range o.Annotations() {
+		if _, ok := v.(map[string]int); ok {
+			keys = append(keys, k)
+		}
+	}
+	sort.Strings(keys)
+	var parts []string
+	for _, k := range keys {
+		m := o.Annotations()[k].(map[string]int)
+		var ks []string
+		for kk := range m {
+			ks = append(ks, kk)
+		}
+		sort.Strings(ks)
+		var es []string
+		for _, kk := range ks {
+			es = append(es, fmt.Sprintf("%s:%d", kk, m[kk]))
+		}
+		parts = append(parts, k+"{"+strings.Join(es, ",")+"}")
+	}
+	return strings.Join(parts, ";")
 }
 
 func c07InAlpha(s []byte) bool {
@@ -420,6 +456,15 @@ func (c07) Exec(c string) (string, []Fail) {
 					target = a[1]
 				case a[0] == "recycle" && len(a) == 2 && objs[a[1]] != nil:
 					objs[a[1]].Recycle()
+					target = a[1]
+				case a[0] == "mapset" && len(a) == 5 && objs[a[1]] != nil:
+					v, _ := strconv.Atoi(a[4])
+					o := objs[a[1]]
+					if m, ok := o.Annotations()[a[2]].(map[string]int); ok && o.HasAnnotation() {
+						m[a[3]] = v // in-place edit of the nested map, as StatsPlusOne / merge code does
+					} else {
+						o.SetAttribute(a[2], map[string]int{a[3]: v})
+					}
 					target = a[1]
 				default:
 					return "bad-op"
